@@ -1,6 +1,8 @@
 """C12  Yule-Walker models are stable and match the data autocorrelation."""
 import numpy as np
 
+import single
+
 import proto
 from common import gen_data, rel
 
@@ -106,7 +108,10 @@ def _ok(x, order):
     return P >= 1e-7 * r0
 
 
+KINDS["single"] = single.kind("C12")
+
 def gen(rng, nrng, tier):
+    yield from single.gen("C12", nrng, tier)
     # FFT-size coincidences: N + order - 1 (and N + order) an exact power of two
     for p2 in (32, 64, 128, 256):
         for order in ([1, 3, 8] if tier == "quick" else [1, 2, 3, 5, 8, 13, 21, 30]):
